@@ -27,7 +27,8 @@ let () =
     while true do
       let line = input_line stdin in
       let out = try string_of_coq (Vmodel.run_line (coq_of_string line))
-                with Stack_overflow -> "modelcrash stackoverflow" in
-      print_string out; print_char '\n'
+                with Stack_overflow -> "modelcrash stackoverflow"
+                   | Out_of_memory -> "modelcrash outofmemory" in
+      print_string out; print_char '\n'; flush stdout
     done
   with End_of_file -> flush stdout
